@@ -112,3 +112,43 @@ Lemma sort_vals_perm l : Permutation (sort_vals l) l.
 Proof. unfold sort_vals. exact (sort_vals_perm_aux l []). Qed.
 Lemma sort_vals_length l : List.length (sort_vals l) = List.length l.
 Proof. apply Permutation_length, sort_vals_perm. Qed.
+
+(* ---------------------------------------------------------------- sortedness *)
+Lemma bltb_asym a : forall b, bltb a b = true -> bltb b a = false.
+Proof.
+  induction a as [|x a IH]; intros [|y b]; cbn [bltb]; try discriminate; try reflexivity.
+  destruct (code x <? code y)%N eqn:E1, (code y <? code x)%N eqn:E2; try discriminate; try reflexivity.
+  - apply N.ltb_lt in E1, E2. lia.
+  - intros H. now apply IH.
+Qed.
+
+Lemma val_lt_asym a b : val_lt a b = true -> val_lt b a = false.
+Proof.
+  unfold val_lt. destruct (numof a) as [x|], (numof b) as [y|]; try discriminate; try reflexivity.
+  - intros H. apply negb_true_iff in H. apply negb_false_iff.
+    destruct (Qle_bool (qof x) (qof y)) eqn:E; [reflexivity|].
+    assert (Hn1 : ~ (qof y <= qof x)%Q) by (intros C; apply Qle_bool_iff in C; congruence).
+    assert (Hn2 : ~ (qof x <= qof y)%Q) by (intros C; apply Qle_bool_iff in C; congruence).
+    destruct (Qlt_le_dec (qof x) (qof y)) as [L|L]; [apply Qlt_le_weak in L|]; contradiction.
+  - apply bltb_asym.
+Qed.
+
+Lemma insert_sorted_sorted x l : LocallySorted val_le l -> LocallySorted val_le (insert_sorted x l).
+Proof.
+  induction l as [|y t IH]; intros Hs; cbn [insert_sorted]; [constructor|].
+  destruct (val_lt y x) eqn:E.
+  - assert (Ht : LocallySorted val_le t) by (inversion Hs; [constructor|assumption]).
+    specialize (IH Ht). destruct t as [|z t'].
+    + cbn [insert_sorted] in *. constructor; [constructor|]. unfold val_le. now apply val_lt_asym.
+    + cbn [insert_sorted] in *. destruct (val_lt z x) eqn:E2.
+      * constructor; [exact IH|]. inversion Hs; assumption.
+      * constructor; [exact IH|]. unfold val_le. now apply val_lt_asym.
+  - constructor; [exact Hs|exact E].
+Qed.
+
+Lemma sort_vals_sorted l : LocallySorted val_le (sort_vals l).
+Proof.
+  unfold sort_vals. assert (G : forall acc, LocallySorted val_le acc -> LocallySorted val_le (fold_left (fun acc x => insert_sorted x acc) l acc)).
+  { induction l as [|x l IH]; intros acc Hs; cbn [fold_left]; [exact Hs|]. apply IH. now apply insert_sorted_sorted. }
+  apply G. constructor.
+Qed.
